@@ -32,7 +32,7 @@ const (
 	PolSticky  = 2 // keep running with probability (P-1)/P
 	PolPCT     = 3 // PCT-style priorities with D change points
 	PolSync    = 4 // uniform random, but only at synchronisation yields (not polls)
-	NumPolicies
+	NumPolicies = 5
 )
 
 const maxTasks = 8
